@@ -351,6 +351,79 @@ func cycles(c *explore.Ctx) {
 	c.Case(map[string]any{"value": cv.name, "form": formName, "entry": entryName, "error": fmt.Sprint(err)})
 }
 
+// ---- decode targets whose interfaces and pointers form a ring: the decoder must come back (encoding/json itself
+// spins on rings longer than one, so there is no reference result: only termination and the absence of a panic are demanded)
+
+type ringNamed interface{}
+type ringMeth interface{ M() }
+type ringNode struct {
+	X int
+	N ringMeth
+	A any
+}
+
+func (*ringNode) M() {}
+
+type ringHolder struct {
+	A any
+	B ringNamed
+}
+
+var ringTargets = []struct {
+	name string
+	mk   func() any
+}{
+	{"any -> *any -> itself", func() any { x := new(any); *x = x; return x }},
+	{"two any values pointing at each other", func() any { p, q := new(any), new(any); *p, *q = q, p; return p }},
+	{"three any values in a ring", func() any { p, q, r := new(any), new(any), new(any); *p, *q, *r = q, r, p; return p }},
+	{"two named empty interfaces pointing at each other", func() any { p, q := new(ringNamed), new(ringNamed); *p, *q = q, p; return p }},
+	{"three named empty interfaces in a ring", func() any { p, q, r := new(ringNamed), new(ringNamed), new(ringNamed); *p, *q, *r = q, r, p; return p }},
+	{"any and named empty interface pointing at each other", func() any { p, q := new(any), new(ringNamed); *p, *q = q, p; return p }},
+	{"named empty interface and any pointing at each other", func() any { p, q := new(ringNamed), new(any); *p, *q = q, p; return p }},
+	{"any -> **any -> *any -> the first any", func() any { p := new(any); pp := &p; *p = &pp; return p }},
+	{"ring entered from outside (a -> b -> c -> b)", func() any { a, b, cc := new(any), new(ringNamed), new(any); *a, *b, *cc = b, cc, b; return a }},
+	{"struct fields pointing at each other's interface fields", func() any { h := new(ringHolder); h.A, h.B = &h.B, &h.A; return h }},
+	{"two structs whose any fields point at each other's field", func() any { g, h := new(ringHolder), new(ringHolder); g.A, h.A = &h.A, &g.A; return g }},
+	{"struct whose interface field holds the struct itself", func() any { n := new(ringNode); n.N = n; n.A = n; return n }},
+	{"slice element pointing at the next, the last at the first", func() any { s := make([]any, 3); s[0], s[1], s[2] = &s[1], &s[2], &s[0]; return &s }},
+	{"map value any pointing at a ring", func() any { p, q := new(any), new(any); *p, *q = q, p; m := map[string]any{"k": p}; return &m }},
+}
+
+var ringDocs = []string{`1`, `"s"`, `null`, `{"k":[1]}`, `[1,[2]]`, `{"A":1,"B":"b","X":3}`, `{"N":{"X":2,"N":{"X":3}},"A":{"A":{"A":4}}}`, `{"k":{"k":{"k":5}}}`, `[{"A":[{"A":1}]},2,3]`, `tru`, ``}
+
+func ringDecode(c *explore.Ctx) {
+	rt := ringTargets[c.Choose(len(ringTargets))]
+	doc := ringDocs[c.Choose(len(ringDocs))]
+	entry := c.Choose(5)
+	entryName := []string{"Unmarshal", "Parse(0)", "Parse(DontCopyString|UseNumber)", "Decoder.Decode", "Decoder.Decode+UseNumber"}[entry]
+	target := rt.mk()
+	var err error
+	pv, site := explore.Catch(func() {
+		switch entry {
+		case 0:
+			err = json.Unmarshal([]byte(doc), target)
+		case 1:
+			_, err = json.Parse([]byte(doc), target, 0)
+		case 2:
+			_, err = json.Parse([]byte(doc), target, json.DontCopyString|json.UseNumber)
+		case 3:
+			err = json.NewDecoder(strings.NewReader(doc)).Decode(target)
+		case 4:
+			d := json.NewDecoder(strings.NewReader(doc))
+			d.UseNumber()
+			err = d.Decode(target)
+		}
+	})
+	if pv != nil {
+		c.Fail("panic:"+site+":"+explore.PanicClass(pv), "%s(%s) into %s panics: %v", entryName, doc, rt.name, pv)
+	}
+	c.NontrivialStr("ring", rt.name, doc, entryName)
+	c.Outcome(fmt.Sprintf("ring err=%v", err != nil))
+	if c.WantSample() || c.Failed() {
+		c.Case(map[string]any{"target": rt.name, "document": doc, "entry": entryName, "error": fmt.Sprint(err)})
+	}
+}
+
 // ---- depth ladder
 //
 // Rungs up to 100,000 run in the worker process; the rungs of 1,000,000 and more (thorough tier) run in a
@@ -630,6 +703,7 @@ func Spec() *explore.Spec {
 		ID: "C06",
 		Families: []*explore.Family{
 			{Name: "cycles", ShardDepth: 2, HangSeconds: 60, Body: cycles, Doc: "20 cyclic values (pointer cycles of length 1-3, rings reached through 999-1500 non-cyclic levels, slices / maps / interfaces / recursive slice and map types / embedded pointers containing themselves) x {as is, behind *any, inside []any, inside a map, inside a struct field} x {Marshal, Append, Encoder, MarshalIndent}: an error is returned"},
+			{Name: "ring-targets", ShardDepth: 2, HangSeconds: 60, FatalPerCase: true, Body: ringDecode, Doc: "14 decode targets whose interfaces and pointers form a ring (any / named empty interface / mixed, length 1-3, through **any, entered from outside, struct fields, slice elements, map values, a struct holding itself in a method-bearing interface) x 11 documents x 5 entry points: the call returns, without a panic or a stack overflow"},
 			{Name: "layouts-encode", ShardDepth: 1, Body: layoutsEncode, Doc: "every type shape of C01 plus pointer-shaped leaves nested 1-3 levels in single-field structs and one-element arrays x boundary values x {by value, by pointer, inside []any, as map value, in a typed slice, in a typed map} x {Marshal, Encoder with indent, Append(0)}"},
 			{Name: "layouts-decode", ShardDepth: 1, Body: layoutsDecode, Doc: "the same type shapes x (34 generic documents incl. mismatching, truncated and malformed ones + the encodings of the type's own boundary values) x {Unmarshal into *T and **T, Decoder with UseNumber, Parse with ZeroCopy|DisallowUnknownFields|DontMatchCaseInsensitiveStructFields}"},
 			{Name: "corrupt-typed", ShardDepth: 1, Body: corruptTyped, Doc: "typed documents (encodings of boundary values) truncated at every offset and with every byte replaced by each of 14 structural bytes, decoded into their own type"},
